@@ -1061,6 +1061,14 @@ func c12Builders(c *Ctx) {
 		arg := ev.Param(fn, fn.Params[1].Name())
 		for _, p := range ev.Run(fn) {
 			calls := eventsWhere(p, func(e *Event) bool { return e.Kind == EvCall && !e.Pure })
+			// an empty argument list registers nothing with the abort / cancel registrars (their loop body never runs;
+			// the Handle* registrars are different: they also note that errors are checked): returning early is the same
+			if len(calls) == 0 && p.Exit == ExitReturn && p.Rets[0] == recv && strings.HasPrefix(target, "AbortOn") && target != "AbortOnResult" {
+				ln := ev.TS.intern(&T{Op: "app", Aux: "len", Args: []*T{arg}, Typ: types.Typ[types.Int]})
+				if p.State.Facts.Truth(ev.TS, ev.TS.Cmp("==", ln, ev.TS.LinConst(0, types.Typ[types.Int]))) == triT {
+					continue
+				}
+			}
 			if p.Exit != ExitReturn || len(calls) != 1 || calls[0].Method != target || len(calls[0].Args) != 1 || calls[0].Args[0] != arg || !strings.HasPrefix(loadedField(calls[0].Recv), "Base") || !calls[0].Recv.Contains(recv) || p.Rets[0] != recv {
 				good = false
 				c.Fail(c.fn(fn), c.P.FuncPos(fn), fmt.Sprintf("builder method must forward its arguments unchanged to the builder's own %s exactly once and return the builder", target), pathTrace(ev, p))
